@@ -422,9 +422,24 @@ Definition wf_bjobs (t : bjtable) : bool :=
   | BjT hdr ls => nonlb hdr && forallb wf_bjline ls
   | BjRaw _ => false
   end.
+(** SPECIFICATION of the state code a bjobs row stands for (LSF manual, see
+    Manuals.v): EXIT with termination reason TERM_RUNLIMIT is a time-out, EXIT
+    with TERM_OWNER a cancellation by the owner, every other row stands for its
+    STAT field.  Written with the adapter's pseudo codes TIMEOUT / CANCELLED,
+    whose required meaning is [lsf_refined_expected].  (The implementation's
+    rule is [lsf_effective], from T-data.) *)
+Definition lsf_row_code (stat reason : str) : str :=
+  if str_eqb stat (s "EXIT") then
+    if contains lsf_term_runlimit reason then s "TIMEOUT"
+    else if contains lsf_term_owner reason then s "CANCELLED"
+    else stat
+  else stat.
+Definition lsf_refined_expected : list (str * State) :=
+  [(s "TIMEOUT", TIMEDOUT); (s "CANCELLED", CANCELLED); (s "EXIT", FAILED)].
+
 Definition bj_pair (l : bjline) : list (str * str) :=
   match l with
-  | BjRow r => [(lf_text (b_id r), lsf_effective (lf_text (b_stat r)) (lf_text (b_reason r)))]
+  | BjRow r => [(lf_text (b_id r), lsf_row_code (lf_text (b_stat r)) (lf_text (b_reason r)))]
   | BjShort _ => []
   end.
 Definition bj_pairs (t : bjtable) : list (str * str) :=
@@ -502,6 +517,22 @@ Definition answers_ok (b_state : str -> State) (alive success : list str)
                        | None => true
                        end) st.
 
+(** codes whose Maestro state is prescribed: the answer is that state *)
+Fixpoint assoc_state (tbl : list (str * State)) (c : str) : option State :=
+  match tbl with
+  | [] => None
+  | (k, v) :: r => if str_eqb c k then Some v else assoc_state r c
+  end.
+Definition expected_ok (tbl : list (str * State)) (ps : list (str * str)) (jl : list str)
+           (st : status) : bool :=
+  forallb (fun j => match last_state ps j with
+                    | Some c => match assoc_state tbl c with
+                                | Some x => answer_eqb (get st j) (Some (Some x))
+                                | None => true
+                                end
+                    | None => true
+                    end) jl.
+
 (** ** The monitors (the predicates the theorems are about) *)
 
 (** Slurm: [obs] is what check_jobs returned *)
@@ -530,6 +561,8 @@ Definition C16_ok_lsf (jl : list str) (t : bjtable) (rc : Z) (obs : result) : bo
         then if lsf_nojob (print_bjobs t)
              then negb (is_OK code) && all_none st
              else is_OK code && answers_ok lsf_state lsf_alive lsf_success (bj_pairs t) jl st
+                  (* EXIT + TERM_RUNLIMIT is TIMEDOUT, EXIT + TERM_OWNER is CANCELLED, other EXIT is FAILED *)
+                  && expected_ok lsf_refined_expected (bj_pairs t) jl st
         else JS_eqb code (code_of bj_rc_map bj_rc_default rc)
              && answers_ok lsf_state lsf_alive lsf_success [] jl st)
   end.
